@@ -23,6 +23,7 @@ def answer (line : String) : String :=
   | "U" :: _ => uLine ws
   | "P" :: _ => pLine ws
   | "S" :: _ => sLine ws
+  | "N" :: _ => nLine ws
   | "B" :: _ => bLine ws
   | "L" :: _ => lLine ws
   | "K" :: _ => kLine ws
